@@ -11,6 +11,7 @@ import (
 	"fmt"
 	"math/rand"
 	"os"
+	"strings"
 	"syscall"
 	"time"
 
@@ -165,6 +166,24 @@ func c05ProbeStorable(r *lib.Result) {
 			ok = int64(st.Uid) == id && int64(st.Gid) == id
 		}
 		r.Hist("storable:owner/" + c05IDLabel(id) + "=" + yn(ok))
+	}
+	// file kinds: which special files the scratch file system lets this process create, and what opening one gives
+	// (the device nodes of the trees carry the device number 0:0, which no driver answers to)
+	for _, k := range c05SpecialOrder {
+		p := dir + "/kind-" + k
+		if err := syscall.Mknod(p, c05SpecialKinds[k]|0o600, 0); err != nil {
+			r.Hist("storable:kind/" + k + "=NOT-created(" + err.Error() + ")")
+			continue
+		}
+		fi, e2 := os.Lstat(p)
+		r.Hist("storable:kind/" + k + "=" + yn(e2 == nil && fi.Mode()&c05SpecialMask != 0))
+		fd, err := syscall.Open(p, syscall.O_RDONLY|syscall.O_NONBLOCK, 0)
+		if err == nil {
+			syscall.Close(fd)
+			r.Hist("storable:kind/" + k + "/open(O_NONBLOCK)=ok")
+		} else {
+			r.Hist("storable:kind/" + k + "/open(O_NONBLOCK)=" + err.Error())
+		}
 	}
 	m := os.FileMode(0o755) | os.ModeSetuid | os.ModeSetgid | os.ModeSticky
 	err = os.Chmod(f, m)
@@ -324,6 +343,39 @@ func c05DirectedSeqs(tier string) []c05Directed {
 		}
 	}
 
+	// ---- file kinds: unix sockets, fifos, character and block device nodes in listings and under the composites
+	for _, k := range c05SpecialOrder {
+		tree := []c05Ent{
+			{P: "d", K: "dir", Mode: 0o755}, {P: "d/k", K: k, Mode: 0o644}, {P: "d/f", K: "file", Data: "hello", Mode: 0o644},
+			{P: "ln", K: "sym", T: "d/k"}, {P: "h", K: "hard", T: "d/k"},
+			{P: "e", K: "dir", Mode: 0o755}, {P: "e/k2", K: k, Mode: 0o600 | uint32(os.ModeSetgid), UID: c05P(1), GID: c05P(65534)}, {P: "e/sub", K: "dir", Mode: 0o755}, {P: "e/sub/k3", K: k, Mode: 0o666},
+			{P: "t", K: k, Mode: 0, MT: c05P(1<<31 - 1)},
+		}
+		ops := look("d/k", "d")
+		ops = append(ops, look("ln", ".")...)
+		ops = append(ops, look("h", ".")...)
+		ops = append(ops, c05Op{K: "stat", P: "e/k2"}, c05Op{K: "lstat", P: "t"}, c05Op{K: "readlink", P: "d/k"}, c05Op{K: "readdir", P: "d/k"}, c05Op{K: "readdirctx", P: "ln", Ctx: "live"},
+			c05Op{K: "walk", P: "d/k"}, c05Op{K: "walk", P: "d"}, c05Op{K: "walk", P: "e"}, c05Op{K: "walk", P: "ln"},
+			c05Op{K: "glob", P: "*/*"}, c05Op{K: "glob", P: "*/*/*"}, c05Op{K: "glob", P: "d/k*"}, c05Op{K: "glob", P: "[a-z]"}, c05Op{K: "realpath", P: "d/k"}, c05Op{K: "statvfs", P: "d/k"},
+			// used where a directory is expected
+			c05Op{K: "mkdirall", P: "d/k"}, c05Op{K: "mkdirall", P: "d/k/x"}, c05Op{K: "mkdirall", P: "ln"}, c05Op{K: "mkdirall", P: "ln/x/y"}, c05Op{K: "mkdir", P: "d/k"}, c05Op{K: "mkdir", P: "d/k/x"},
+			c05Op{K: "stat", P: "d/k/x"}, c05Op{K: "lstat", P: "d/k/x"}, c05Op{K: "rmdir", P: "d/k/x"}, c05Op{K: "remove", P: "d/k/x"}, c05Op{K: "removeall", P: "d/k/x"}, c05Op{K: "rename", P: "d/f", Q: "d/k/x"},
+			c05Op{K: "symlink", P: "d", Q: "d/k/x"}, c05Op{K: "link", P: "d/f", Q: "d/k/x"},
+			// attributes
+			c05Op{K: "chmod", P: "d/k", Mode: 0o600}, c05Op{K: "lstat", P: "d/k"}, c05Op{K: "chmod", P: "ln", Mode: 0o755 | uint32(os.ModeSticky)}, c05Op{K: "stat", P: "h"},
+			c05Op{K: "chtimes", P: "d/k", N: 1 << 31, A: c05P(1)}, c05Op{K: "stat", P: "d/k"}, c05Op{K: "chown", P: "d/k", UID: c05P(65534), GID: c05P(1)}, c05Op{K: "readdir", P: "d"},
+			c05Op{K: "truncate", P: "d/k", N: 0}, c05Op{K: "truncate", P: "d/k", N: 5},
+			// name-space operations on them
+			c05Op{K: "link", P: "d/k", Q: "d/k4"}, c05Op{K: "rename", P: "d/k4", Q: "e/k9"}, c05Op{K: "posixrename", P: "e/k9", Q: "d/k4"}, c05Op{K: "symlink", P: "k4", Q: "d/s4"}, c05Op{K: "stat", P: "d/s4"},
+			c05Op{K: "rename", P: "d/f", Q: "d/k4"}, c05Op{K: "rename", P: "e/sub", Q: "t"}, c05Op{K: "rename", P: "t", Q: "e/sub"}, c05Op{K: "readdir", P: "d"}, c05Op{K: "walk", P: "."},
+			c05Op{K: "rmdir", P: "t"}, c05Op{K: "remove", P: "ln"}, c05Op{K: "remove", P: "h"}, c05Op{K: "openfile", P: "e/k2", Flag: os.O_RDONLY | os.O_CREATE | os.O_EXCL},
+			c05Op{K: "removeall", P: "e/sub/k3"}, c05Op{K: "removeall", P: "e"}, c05Op{K: "readdir", P: "."}, c05Op{K: "removeall", P: "d"}, c05Op{K: "walk", P: "."})
+		add("kinds/"+k, tree, ops)
+	}
+
+	// ---- non-canonical spellings of ABSOLUTE paths (no working directory: the kernel resolves what the client wrote)
+	out = append(out, c05NonCanonSeqs()...)
+
 	// ---- large and long-named directories: listing in several READDIR batches, long NAME replies
 	counts, lens := []int{129, 1024, 1100}, []int{1, 120, 200, 255}
 	if thorough {
@@ -342,5 +394,72 @@ func c05DirectedSeqs(tier string) []c05Directed {
 			add(fmt.Sprintf("bigdir/n=%d,l=%d", n, l), tree, ops)
 		}
 	}
+	return out
+}
+
+// c05NonCanonSeqs: every operation kind over a table of non-canonical spellings — trailing slashes on files,
+// directories and symbolic links (to a directory, to a file, dangling), "/./", "//", "x/../y" over a real directory
+// and over a symbolic link whose target lives in another directory, "link/..", a final "." — of paths in one small
+// tree.  Path mode abs only (see c05Gen.spell for the working-directory case); RemoveAll is left out (ibid.).
+func c05NonCanonSeqs() []c05Directed {
+	tree := []c05Ent{
+		{P: "a", K: "dir", Mode: 0o755}, {P: "a/x", K: "file", Data: "1", Mode: 0o644}, {P: "a/sub", K: "dir", Mode: 0o755},
+		{P: "b", K: "dir", Mode: 0o755}, {P: "b/c", K: "dir", Mode: 0o755}, {P: "b/x", K: "file", Data: "22", Mode: 0o600}, {P: "b/c/y", K: "file", Data: "333", Mode: 0o644},
+		{P: "a/up", K: "sym", T: "../b/c"}, // a/up/.. is b, not a
+		{P: "f", K: "file", Data: "4444", Mode: 0o644}, {P: "lf", K: "sym", T: "f"}, {P: "ld", K: "sym", T: "b/c"}, {P: "la", K: "sym", T: "a", TAbs: true},
+		{P: "dang", K: "sym", T: "missing"}, {P: "loop", K: "sym", T: "loop"}, {P: "p", K: "fifo", Mode: 0o644},
+	}
+	spell := []string{
+		"f/", "lf/", "ld/", "la/", "a/", "dang/", "loop/", "p/", "missing/", "a/x/", "a/sub//", "ld//",
+		"a/up/..", "a/up/../x", "a/up/../c", "a/up/../c/y", "ld/..", "ld/../x", "ld/../c/y", "la/..", "la/../f", "la/up/../x",
+		"a/../f", "a/../a/x", "f/../f", "missing/../f", "dang/../f", "a/sub/../x", "a/sub/../../b/x",
+		"a/./x", "./f", "a//x", "a///sub", "f/.", "a/.", "lf/.", "ld/.", "a/sub/.", "./a/./sub/./", "a/up/./../x", "a/up//..//x",
+	}
+	var out []c05Directed
+	add := func(fam string, ops []c05Op) {
+		out = append(out, c05Directed{"noncanon/" + fam, c05Input{Mode: "abs", Tree: tree, Ops: ops}})
+	}
+	per := func(fam string, f func(p string) []c05Op) {
+		var ops []c05Op
+		for _, p := range spell {
+			ops = append(ops, f(p)...)
+		}
+		add(fam, ops)
+	}
+	per("look", func(p string) []c05Op {
+		return []c05Op{{K: "stat", P: p}, {K: "lstat", P: p}, {K: "readlink", P: p}, {K: "realpath", P: p}, {K: "statvfs", P: p}}
+	})
+	per("list", func(p string) []c05Op {
+		ops := []c05Op{{K: "readdir", P: p}, {K: "readdirctx", P: p, Ctx: "live"}}
+		if !strings.Contains(p, "..") { // Walk joins the root and the listed names lexically, like filepath.Walk (c05Gen.spell)
+			ops = append(ops, c05Op{K: "walk", P: p})
+		}
+		return ops
+	})
+	per("attr", func(p string) []c05Op {
+		return []c05Op{{K: "chmod", P: p, Mode: 0o640}, {K: "chtimes", P: p, N: 1_234_567_890}, {K: "chown", P: p, UID: c05P(1), GID: c05P(1)}, {K: "truncate", P: p, N: 2}, {K: "openfile", P: p, Flag: os.O_RDONLY},
+			{K: "stat", P: "f"}, {K: "stat", P: "a/x"}, {K: "stat", P: "b/x"}, {K: "stat", P: "b/c"}}
+	})
+	// creating: the spelling names the new entry's parent, or the new entry itself with a trailing slash
+	n := 0
+	per("create", func(p string) []c05Op {
+		n++
+		nm := fmt.Sprintf("n%d", n)
+		return []c05Op{{K: "mkdir", P: p + "/" + nm}, {K: "create", P: p + "/" + nm + "f", Data: "c"}, {K: "mkdir", P: nm + "/"}, {K: "create", P: nm + "g/", Data: "c"},
+			{K: "mkdirall", P: p + "/" + nm + "m/z"}, {K: "symlink", P: "f", Q: p + "/" + nm + "s"}, {K: "link", P: "f", Q: p + "/" + nm + "h"}, {K: "openfile", P: p, Flag: os.O_WRONLY | os.O_CREATE, Data: "w"}}
+	})
+	// renaming: the spelling as the source, and as the target
+	n = 0
+	per("rename", func(p string) []c05Op {
+		n++
+		nm := fmt.Sprintf("r%d", n)
+		return []c05Op{{K: "create", P: nm, Data: "r"}, {K: "rename", P: nm, Q: p}, {K: "rename", P: nm, Q: nm + "new/"}, {K: "posixrename", P: p, Q: nm + "moved"}, {K: "rename", P: nm + "moved", Q: "f"},
+			{K: "link", P: p, Q: nm + "lnk"}, {K: "readdir", P: "."}}
+	})
+	// removing: each spelling on a fresh copy of what it names is not possible inside one sequence, so the entries are
+	// removed one spelling after the other and looked at in between
+	per("remove", func(p string) []c05Op {
+		return []c05Op{{K: "remove", P: p}, {K: "rmdir", P: p}, {K: "lstat", P: "lf"}, {K: "lstat", P: "ld"}, {K: "lstat", P: "la"}, {K: "lstat", P: "dang"}}
+	})
 	return out
 }
